@@ -217,6 +217,114 @@ Proof.
 Qed.
 Print Assumptions C13_refuted_cross_shape.
 
+(* ---- template strings (UniqueNumericIdGenerator.__init__ / _convert on the raw `parts` string) ---- *)
+
+(* Every template over pid / context / index / non-negative literal numbers can be written as a
+   string ("pid,context,index,123") that the constructor's parser — split on ",", strip, lower,
+   classify — reads back as exactly that template: the theorems above, stated over part lists,
+   speak about every template a user can write, and about nothing else (next theorem). *)
+Theorem C13_template_string_roundtrip :
+  forall tpl, tpl <> [] ->
+    Forall (fun p => match p with PBad => False | PNum n => 0 <= n | _ => True end) tpl ->
+    parse_template (print_template tpl) = Ok tpl.
+Proof. exact parse_print. Qed.
+Print Assumptions C13_template_string_roundtrip.
+
+(* Whatever ASCII string is given, the parser returns a non-empty part list whose literals are
+   non-negative numbers (isnumeric accepts digits only: no sign, no "o" of a negative octal). *)
+Theorem C13_parsed_literals_nonneg :
+  forall s tpl, parse_template s = Ok tpl ->
+    Forall (fun p => match p with PNum n => 0 <= n | _ => True end) tpl /\ tpl <> [].
+Proof. exact parse_literals_nonneg. Qed.
+Print Assumptions C13_parsed_literals_nonneg.
+
+(* ... so a numeric generator made from ANY accepted template string never fails on a draw (pid
+   numbers, context and index are non-negative in the code: oct(pid), count(1), count(start));
+   the only failure left is scramble_number's own 1000-bit limit.  The injectivity theorems are
+   therefore about values that exist. *)
+Theorem C13_unique_id_total :
+  forall (mask : Z -> Z -> Z) (nbits : Z -> Z) s tpl pid c i r,
+    parse_template s = Ok tpl -> Forall (fun x => 0 <= x) pid -> 0 <= c -> 0 <= i ->
+    (forall x, nbits x < 1000) ->
+    exists v, num_value mask nbits tpl pid c i r = Ok v.
+Proof. exact num_value_total. Qed.
+Print Assumptions C13_unique_id_total.
+
+(* scramble_number stays injective even if the float logarithm is NOT a function (different bit
+   counts in the two calls): the result carries the bit count that was used.  Only the mask has to
+   be one function of (key, numbits) for the whole process. *)
+Theorem C13_scramble_injective_any_bit_count :
+  forall (mask : Z -> Z -> Z) (nbits nbits' : Z -> Z) n n' minbits minbits' v,
+    scramble mask nbits n minbits = Ok v -> scramble mask nbits' n' minbits' = Ok v -> n = n'.
+Proof. exact scramble_inj_any_nbits. Qed.
+Print Assumptions C13_scramble_injective_any_bit_count.
+
+(* "at least min_chars long", for the min_chars the USER asked for (AlphaUniquifier.__init__ raises
+   it to 4 when randomize_codes is on), and only characters of the alphabet in use *)
+Theorem C13_alpha_code_requested_length :
+  forall (mask : Z -> Z -> Z) (nbits bpc : Z -> Z) tpl abc mc rc a pid c i s,
+    alpha_new tpl abc mc rc = Ok a -> alpha_value mask nbits bpc a tpl pid c i = Ok s ->
+    mc <= Z.of_nat (length s) /\ Forall (fun ch => In ch (al_alphabet a)) s.
+Proof. exact alpha_code_requested_length. Qed.
+Print Assumptions C13_alpha_code_requested_length.
+
+(* ---- one process, any number of generate_data runs (theories/UniqueId.v, p_step / p_run) ----
+   The machine: a process-wide counter hands every constructed generator (in whatever run, also when
+   re-created from a continuation file, also when the constructor then fails) the next context number;
+   every generator counts its own draws from `start`; run boundaries change nothing; the mask is ONE
+   function for the whole process.  [ops] is any sequence of constructor calls, draws, run boundaries
+   and "burns" (context numbers used up by anything else). *)
+
+(* the (context, index) pairs of all draws of a process are pairwise different, and a context number
+   names one generator *)
+Theorem C13_process_keys_fresh :
+  forall c0 ops,
+    NoDup (map (fun k : rspec * Z * Z => (snd (fst k), snd k)) (process_keys c0 ops)) /\
+    (forall r r' c i i', In (r, c, i) (process_keys c0 ops) -> In (r', c, i') (process_keys c0 ops) ->
+                         r = r').
+Proof.
+  intros c0 ops. split; [exact (process_keys_NoDup c0 ops)|].
+  intros r r' c i i'. exact (process_keys_spec_fun c0 ops r r' c i i').
+Qed.
+Print Assumptions C13_process_keys_fresh.
+
+(* Two draws anywhere in the process — same run or different runs — from generators of the same
+   template containing `context` and `index` (numeric with the same randomize flag, or alphabetic
+   over the same duplicate-free alphabet with the same randomize_codes flag; any pids of the same
+   number of chunks, any min_chars) give the same value only if they are the same draw. *)
+Theorem C13_process_same_shape_distinct :
+  forall (mask : Z -> Z -> Z) (nbits bpc : Z -> Z) c0 ops r r' c c' i i' v,
+    In (r, c, i) (process_keys c0 ops) -> In (r', c', i') (process_keys c0 ops) ->
+    comparable r r' -> In PContext (spec_tpl r) -> In PIndex (spec_tpl r) ->
+    rvalue mask nbits bpc r c i = Ok v -> rvalue mask nbits bpc r' c' i' = Ok v ->
+    (r, c, i) = (r', c', i').
+Proof. exact process_same_shape_distinct. Qed.
+Print Assumptions C13_process_same_shape_distinct.
+
+(* Default unique_id generators (`unique_id`, `UniqueId.unique_id`, template-less
+   `UniqueId.NumericIdGenerator`; small-id and big-id mode in any mix; any pids): ALL values of the
+   process are pairwise distinct.  Unlike C13_pipeline_process there is no hypothesis about context
+   numbers: the machine allocates them. *)
+Theorem C13_process_default_numeric_distinct :
+  forall (mask : Z -> Z -> Z) (nbits bpc : Z -> Z) c0 ops vs,
+    (forall r c i, In (r, c, i) (process_keys c0 ops) ->
+       exists big pid, r = RNum (default_numeric_tpl big) pid true) ->
+    process_values mask nbits bpc c0 ops = map Ok vs -> NoDup vs.
+Proof. exact process_default_numeric_NoDup. Qed.
+Print Assumptions C13_process_default_numeric_distinct.
+
+(* BIG-ID MODE ONLY (see K5): default alpha generators over one duplicate-free alphabet and one
+   randomize_codes flag (any min_chars, any pids): all codes of the process are pairwise distinct, again
+   without a hypothesis about context numbers. *)
+Theorem C13_process_default_alpha_big_mode_distinct :
+  forall (mask : Z -> Z -> Z) (nbits bpc : Z -> Z) c0 ops abc rc vs,
+    NoDup abc -> (2 <= length abc)%nat ->
+    (forall r c i, In (r, c, i) (process_keys c0 ops) ->
+       exists pid a, r = RAlpha (default_alpha_tpl true) pid a /\ al_alphabet a = abc /\ al_randomize a = rc) ->
+    process_values mask nbits bpc c0 ops = map Ok vs -> NoDup vs.
+Proof. exact process_default_alpha_big_NoDup. Qed.
+Print Assumptions C13_process_default_alpha_big_mode_distinct.
+
 (* ---- non-vacuity: concrete runs satisfying the hypotheses ---- *)
 
 (* the example of the comment in UniqueId.py: [127, 99, 0, 1] -> 17791439091 *)
@@ -253,4 +361,21 @@ Qed.
 
 Example C13_ex_alpha :
   alpha_string [65; 67; 71; 84] 6 27 = Ok [65; 65; 65; 67; 71; 84].   (* "AAACGT" *)
+Proof. vm_compute. reflexivity. Qed.
+
+(* " PID , 007,Index,context" is read as pid, 7, index, context;  "1_000" / "+5" / "" are rejected *)
+Example C13_ex_parse :
+  parse_template [32; 80; 73; 68; 32; 44; 32; 48; 48; 55; 44; 73; 110; 100; 101; 120; 44; 99; 111; 110;
+                  116; 101; 120; 116] = Ok [PPid; PNum 7; PIndex; PContext] /\
+  parse_template [49; 95; 48; 48; 48; 44; 43; 53; 44] = Ok [PBad; PBad; PBad] /\
+  print_template [PPid; PNum 120; PIndex] = [112; 105; 100; 44; 49; 50; 48; 44; 105; 110; 100; 101; 120].
+Proof. repeat split; vm_compute; reflexivity. Qed.
+
+(* a process of two runs: run 1 makes a default small-id generator (context 1) and draws twice; a bad
+   template burns context 2; run 2 makes a big-id generator (context 3), draws from both *)
+Example C13_ex_machine :
+  process_values (fun k n => k * 37 + n) (fun n => Z.log2 n + 1) (fun _ => 5) 1
+    [ONew (Ok (RNum (default_numeric_tpl false) [] true, 1)); ODraw 0 2; OBoundary;
+     ONew (Err (DGE "")); ONew (Ok (RNum (default_numeric_tpl true) [5] true, 1)); ODraw 1 1; ODraw 0 1]
+  = map Ok [VNum 601010; VNum 712010; VNum 58891013; VNum 1063010].
 Proof. vm_compute. reflexivity. Qed.
